@@ -3,6 +3,7 @@ from __future__ import annotations
 
 import copy
 import json
+import time
 from fractions import Fraction
 
 from .. import core
@@ -12,19 +13,28 @@ PROP_FILE = "Properties/C17.v"
 
 TRUSTED = [
     "correspondence harness: harness/props/c17.py (generators, exact float -> rational conversion, rate of each "
-    "configured model per pixel), harness/drivers/c17.py (calls the real models / pyxel.run_mode)",
+    "configured model per pixel), harness/drivers/c17.py (calls the real models / pyxel.run_mode; pooch.retrieve is "
+    "pointed at a local PNG for usaf_illumination)",
+    "translator/c17.py: the scan for clock readers under pyxel/models, the symbolic evaluation of the integrating "
+    "models' bodies (which helpers are pure, which attributes are step-independent: geometry / characteristics / "
+    "environment) and its CLASSIFICATION table (which readers are excluded as random / relaxation / bookkeeping); the "
+    "translated rows are evaluated in Coq against real calls on every run",
     "modelled, not verified: numpy element-wise float64 arithmetic is exact on the dyadic inputs of the exact stream "
     "(every intermediate value has < 53 significant bits); the 0/1 spatial mask of rectangular/elliptic illumination "
-    "and of the stripe pattern is taken from the implementation's own calculate_illumination/compute_pattern at "
-    "level 1 (the property is about time, not shape); the dark-current rate in e-/pixel/s is measured on the "
-    "implementation at unit time step (figure_of_merit chosen so that the measured rate is a small dyadic number)",
-    "no translator: the property has no table/guard-shaped part beyond the Readout guards, which are modelled by "
-    "valid_schedule and checked by correspondence (a few refused schedules per run)",
+    "and of the stripe pattern, the placement (crop/align) of loaded files and the interpolated rotated stripe pattern "
+    "are taken from the implementation's own helpers (the property is about time, not shape); the dark-current rates "
+    "in e-/pixel/s are measured on the implementation at unit time step (figure_of_merit chosen so that the measured "
+    "rate is a small dyadic number); system_gain is read from the detector",
 ]
 
 TOL = Fraction(1, 10 ** 9)
-RATE_MODELS = ["ill_uniform", "ill_rect", "ill_ellip", "load_image", "stripe", "load_charge", "dark_current"]
-PHOTON_KINDS = ["ill_uniform", "ill_rect", "ill_ellip", "load_image", "stripe"]
+RATE_MODELS = ["ill_uniform", "ill_rect", "ill_ellip", "load_image", "stripe", "load_charge", "dark_current",
+               "dark_current_rule07", "usaf"]
+# time-integrating models that are only called directly (K-free proportionality of their increment): the
+# scene -> photon projection needs a scene generator in front of it and makes 3-D photons
+INC_ONLY = ["scene"]
+CHARGE_KINDS = ["load_charge", "dark_current", "dark_current_rule07"]
+PHOTON_KINDS = ["ill_uniform", "ill_rect", "ill_ellip", "load_image", "stripe", "usaf"]
 
 
 # ------------------------------------------------------------------------------------------ literals
@@ -54,16 +64,25 @@ def is_small_dyadic(f: Fraction) -> bool:
 # ------------------------------------------------------------------------------------------ generators
 
 
-def gen_det(r, need_even=False, small=False):
+def gen_det(r, need_even=False, small=False, dy=True):
     hi = 4 if small else 8
     rows, cols = r.randrange(1, hi + 1), r.randrange(1, hi + 1)
     if r.random() < 0.5:  # bias towards small detectors (cost), the full 1..8 x 1..8 range stays reachable
         rows, cols = min(rows, r.randrange(1, 4)), min(cols, r.randrange(1, 5))
     if need_even:
         rows, cols = rows + rows % 2, cols + cols % 2
-    return dict(kind=r.choice(["ccd", "ccd", "cmos"]), rows=rows, cols=cols, pv=H(r.choice([10.0, 15.0, 18.0])),
-                ph=H(r.choice([10.0, 12.0])), temperature=H(r.choice([150.0, 200.0, 250.0, 300.0])),
-                qe=H(r.choice([1.0, 0.5, 0.75])))
+    d = dict(kind=r.choice(["ccd", "ccd", "cmos"]), rows=rows, cols=cols, pv=H(r.choice([10.0, 15.0, 18.0])),
+             ph=H(r.choice([10.0, 12.0])), temperature=H(r.choice([150.0, 200.0, 250.0, 300.0])),
+             qe=H(r.choice([1.0, 0.5, 0.75])))
+    # read-out chain (enters load_image(convert_to_photons=True) through system_gain); powers of two in the exact stream
+    if dy:
+        # (magnitudes kept moderate so that every float intermediate of a 12-readout exposure stays below 53 bits)
+        d.update(adc_bits=r.choice([8, 10, 12]), ctv=H(2.0 ** -r.choice([8, 12])),
+                 preamp=H(r.choice([1.0, 2.0, 0.5])), vrange=[H(0.0), H(r.choice([4.0, 8.0, 16.0]))])
+    else:
+        d.update(adc_bits=r.choice([8, 12, 16]), ctv=H(r.choice([1.0e-6, 3.0e-6, 5.0e-5])),
+                 preamp=H(r.choice([1.0, 0.8, 100.0])), vrange=[H(0.0), H(r.choice([5.0, 10.0, 3.3]))])
+    return d
 
 
 def gen_level(r, dy):
@@ -71,7 +90,7 @@ def gen_level(r, dy):
 
 
 def gen_ts(r, dy):
-    return r.choice([1.0, 1.0, 0.5, 2.0, 0.25, 4.0, 0.125]) if dy else r.choice([1.0, 0.001, 0.1, 3.0, 60.0, 1e-6])
+    return r.choice([0.5, 2.0, 0.25, 4.0, 0.125, 8.0]) if dy else r.choice([0.001, 0.1, 3.0, 60.0, 1e-6])
 
 
 def gen_data(r, n, dy, hi=32):
@@ -81,28 +100,92 @@ def gen_data(r, n, dy, hi=32):
 
 
 DC_TARGETS = [3.0, 2.0, 1.0, 0.5, 5.0, 8.0, 12.0, 0.75, 6.0, 10.0, 4.0, 1.5, 7.0, 0.25, 16.0, 9.0]
+ALIGNS = ["center", "top_left", "top_right", "bottom_left", "bottom_right"]
+
+# Every option / branch of a time-integrating model that changes how the time step reaches the bucket (or could
+# plausibly do so after a rewrite).  Each variant is exercised by direct calls on EVERY run (call_items) and drawn
+# at random inside exposures.  The option names are checked against the signatures in the source by the
+# translator (translator/c17.py: a parameter that is not classified there fails closed).
+VARIANTS = {
+    "ill_uniform": [dict(ts=False), dict(ts=True)],
+    "ill_rect": [dict(ts=False, center=False), dict(ts=True, center=True), dict(ts=True)],
+    "ill_ellip": [dict(ts=True, center=False), dict(ts=False, center=True), dict(ts=True, center=True)],
+    "load_image": [dict(), dict(mult=True), dict(ts=True), dict(mult=True, ts=True, fmt="fits"),
+                   dict(convert=True), dict(convert=True, mult=True), dict(convert=True, ts=True),
+                   dict(convert=True, mult=True, ts=True, place="position"),
+                   dict(place="position", ts=True), dict(place="shape", mult=True)]
+                  + [dict(place=a, ts=(i % 2 == 0), convert=(i % 3 == 0)) for i, a in enumerate(ALIGNS)],
+    "stripe": [dict(ts=False, angle=0), dict(ts=True, angle=0), dict(ts=True, angle=90), dict(ts=False, angle=30)],
+    "load_charge": [dict(), dict(ts=True), dict(place="position", ts=True), dict(place="shape")]
+                   + [dict(place=a, ts=(i % 2 == 1)) for i, a in enumerate(ALIGNS)],
+    "usaf": [dict(), dict(ts=True, mult=True), dict(convert=True, ts=True), dict(place="position", convert=True, mult=True),
+             dict(place="center", ts=True), dict(place="top_right")],
+    "scene": [dict(integrate=True), dict(integrate=False)],
+    "dark_current": [dict(), dict(band_gap=True)],
+    "dark_current_rule07": [dict(cutoff=False), dict(cutoff=True)],
+}
 
 
-def gen_model(r, kind, det, dy):
+def gen_placement(r, m, det, place, dy):
+    """File of another shape than the detector and/or position / align (the placed image is read back from the
+    implementation's own load_cropped_and_aligned_image by the driver)."""
+    rows, cols = det["rows"], det["cols"]
+    if place is None:
+        return
+    fr_, fc_ = r.randrange(1, rows + 3), r.randrange(1, cols + 3)
+    m["data_shape"] = [fr_, fc_]
+    m["data"] = gen_data(r, fr_ * fc_, dy)
+    if place == "position":
+        # any offset that leaves an overlap in both directions (negative offsets crop the file)
+        m["position"] = [r.randrange(-(fr_ - 1), rows), r.randrange(-(fc_ - 1), cols)]
+    elif place in ALIGNS:
+        m["align"] = place
+
+
+def gen_model(r, kind, det, dy, variant=None):
     rows, cols = det["rows"], det["cols"]
     n = rows * cols
+    v = dict(r.choice(VARIANTS[kind])) if (variant is None and kind in VARIANTS) else dict(variant or {})
     m = {}
     if kind == "ill_uniform":
         m = dict(m="illumination", level=H(gen_level(r, dy)), option="uniform")
     elif kind in ("ill_rect", "ill_ellip"):
         m = dict(m="illumination", level=H(gen_level(r, dy)), option="rectangular" if kind == "ill_rect" else "elliptic",
                  object_size=[r.randrange(1, rows + 2), r.randrange(1, cols + 2)])
-        if r.random() < 0.5:
+        if v.get("center", False):
             m["object_center"] = [r.randrange(0, rows + 1), r.randrange(0, cols + 1)]
     elif kind == "load_image":
-        m = dict(m="load_image", data=gen_data(r, n, dy), fmt=r.choice(["npy", "npy", "fits"]))
-        if r.random() < 0.6:
+        m = dict(m="load_image", data=gen_data(r, n, dy), fmt=v.get("fmt") or r.choice(["npy", "npy", "fits"]))
+        gen_placement(r, m, det, v.get("place"), dy)
+        if v.get("mult"):
             m["multiplier"] = H(r.choice([2.0, 0.5, 3.0, 1.5]) if dy else round(r.uniform(0.1, 5), 3))
+        if v.get("convert"):
+            m["convert"] = True
+            m["bit_resolution"] = r.choice([8, 10, 12, 6])
+    elif kind == "usaf":
+        # the 8-bit image the model would download, here a small local file of arbitrary shape
+        fr_, fc_ = r.randrange(1, rows + 3), r.randrange(1, cols + 3)
+        m = dict(m="usaf_illumination", data=[H(float(r.randrange(0, 256))) for _ in range(fr_ * fc_)], data_shape=[fr_, fc_])
+        if v.get("place") == "position":
+            m["position"] = [r.randrange(-(fr_ - 1), rows), r.randrange(-(fc_ - 1), cols)]
+        elif v.get("place") in ALIGNS:
+            m["align"] = v["place"]
+        if v.get("mult"):
+            m["multiplier"] = H(r.choice([2.0, 0.5, 3.0, 1.5]) if dy else round(r.uniform(0.1, 5), 3))
+        if v.get("convert"):
+            m["convert"] = True
+            m["bit_resolution"] = r.choice([8, 10, 12, 6])
+    elif kind == "scene":
+        m = dict(m="scene_collection", aperture=H(r.choice([1.0, 0.5, 2.0, 1.5])), pixel_scale=H(r.choice([12.0, 16.0, 10.0])),
+                 integrate=bool(v.get("integrate", True)), flux_scale=H(r.choice([1.0, 2.0, 8.0])))
     elif kind == "stripe":
         per = r.choice([p for p in (2, 4, 6, 8) if p // 2 <= max(rows, cols)])
         m = dict(m="stripe_pattern", level=H(gen_level(r, dy)), period=per, startwith=r.randrange(2))
+        if v.get("angle"):
+            m["angle"] = int(v["angle"])
     elif kind == "load_charge":
         m = dict(m="load_charge", data=gen_data(r, n, dy), fmt="npy")
+        gen_placement(r, m, det, v.get("place"), dy)
     elif kind == "dark_current":
         if dy:
             t = DC_TARGETS[:]
@@ -110,6 +193,14 @@ def gen_model(r, kind, det, dy):
             m = dict(m="dark_current", targets=[H(x) for x in t])
         else:
             m = dict(m="dark_current", fom=H(round(r.uniform(0.01, 50.0), 4)))
+        if v.get("band_gap"):
+            m["band_gap"] = H(r.choice([1.12, 1.0, 1.25]))
+            m["band_gap_rt"] = H(r.choice([1.12, 1.1, 1.2]))
+    elif kind == "dark_current_rule07":
+        m = dict(m="dark_current_rule07")
+        if v.get("cutoff"):
+            # moderate rates only (the rate spans 20 orders of magnitude over the accepted cut-off range)
+            m["cutoff"] = H(r.choice([1.7, 1.8, 2.0, 2.2]))
     elif kind == "simple_conversion":
         q = r.choice([None, 0.5, 0.75, 0.25, 1.0, 0.625]) if dy else r.choice([None, 0.9, 0.33, 0.618])
         m = dict(m="simple_conversion", qe=None if q is None else H(q))
@@ -118,7 +209,7 @@ def gen_model(r, kind, det, dy):
         m = dict(m="qe_map", data=[H(v) for v in vals], fmt="npy")
     else:
         raise ValueError(kind)
-    if kind in ("ill_uniform", "ill_rect", "ill_ellip", "load_image", "stripe", "load_charge") and r.random() < 0.7:
+    if kind in ("ill_uniform", "ill_rect", "ill_ellip", "load_image", "stripe", "load_charge", "usaf") and v.get("ts", False):
         m["time_scale"] = H(gen_ts(r, dy))
     return m
 
@@ -128,12 +219,13 @@ def gen_pipeline(r, dy, kinds=None):
     if kinds is None:
         nph = r.choice([0, 1, 1, 2, 2, 3])
         kinds = [r.choice(PHOTON_KINDS) for _ in range(nph)]
-        kinds += [k for k in ("load_charge", "dark_current") if r.random() < 0.45]
+        kinds = [k for i, k in enumerate(kinds) if k != "usaf" or "usaf" not in kinds[:i]]   # one download per pipeline
+        kinds += [k for k in CHARGE_KINDS if r.random() < (0.45 if k != "dark_current_rule07" else 0.2)]
         if not kinds:
             kinds = [r.choice(RATE_MODELS)]
-    det = gen_det(r, need_even="stripe" in kinds, small=not dy)   # non-dyadic rationals are long: keep them few
+    det = gen_det(r, need_even="stripe" in kinds, small=not dy, dy=dy)   # non-dyadic rationals are long: keep them few
     ph = [gen_model(r, k, det, dy) for k in kinds if k in PHOTON_KINDS]
-    gen = [gen_model(r, k, det, dy) for k in kinds if k in ("load_charge", "dark_current")]
+    gen = [gen_model(r, k, det, dy) for k in kinds if k in CHARGE_KINDS]
     if ph:
         gen.append(gen_model(r, r.choice(["simple_conversion", "simple_conversion", "qe_map"]), det, dy))
         if r.random() < 0.15:
@@ -178,30 +270,75 @@ def gen_partition(r, dy, start, end, n):
     return ts
 
 
-def exposure_payload(det, models, start, times, nd):
-    return dict(kind="exposure", det=det, models=models, start=H(start), times=[H(t) for t in times], nd=bool(nd))
+def rate_kind(m):
+    """The RATE_MODELS name of a configured model (None for conversions / collection)."""
+    k = m["m"]
+    if k == "illumination":
+        return {"uniform": "ill_uniform", "rectangular": "ill_rect", "elliptic": "ill_ellip"}.get(m.get("option", "uniform"))
+    return {"load_image": "load_image", "stripe_pattern": "stripe", "load_charge": "load_charge", "dark_current": "dark_current",
+            "dark_current_rule07": "dark_current_rule07", "usaf_illumination": "usaf"}.get(k)
+
+
+def exposure_payload(det, models, start, times, nd, entry=None):
+    p = dict(kind="exposure", det=det, models=models, start=H(start), times=[H(t) for t in times], nd=bool(nd))
+    if entry == "exposure_mode":     # the deprecated public entry point (own copy of the readout loop)
+        p["entry"] = entry
+    return p
+
+
+def gen_entry(r):
+    return "exposure_mode" if r.random() < 0.3 else None
 
 
 # ------------------------------------------------------------------------------------------ rates (exact rationals)
+
+
+def pow2(f: Fraction) -> bool:
+    n, d = abs(f.numerator), f.denominator
+    return n > 0 and n & (n - 1) == 0 and d & (d - 1) == 0
+
+
+def model_rates(det, m, aux):
+    """Per pixel: the rate of this configured rate model (exact rational), i.e. its bucket increment per unit time
+    step.  Closed form from the model's documented arguments; only 0/1 masks, placed (cropped/aligned) files,
+    rotated stripe patterns, system_gain and the dark-current rates are read back from the implementation."""
+    n = det["rows"] * det["cols"]
+    k = m["m"]
+    ts = fr(m["time_scale"]) if "time_scale" in m else Fraction(1)
+    if k in ("illumination", "stripe_pattern"):
+        if "pattern_level" in aux:
+            pat = [fr(v) for v in aux["pattern_level"]]
+            if len(pat) != n:
+                raise ValueError(f"pattern of {k} does not have the detector shape")
+            return [p / ts for p in pat]
+        pat = [fr(v) for v in aux["pattern"]] if "pattern" in aux else [Fraction(1)] * n
+        if any(p not in (0, 1) for p in pat) or len(pat) != n:
+            raise ValueError(f"spatial pattern of {k} is not a 0/1 mask of the detector shape")
+        return [fr(m["level"]) / ts * p for p in pat]
+    if k in ("load_image", "load_charge", "usaf_illumination"):
+        img = [fr(v) for v in (aux["image"] if "image" in aux else m["data"])]
+        if len(img) != n:
+            raise ValueError(f"placed file of {k} does not have the detector shape")
+        f = Fraction(1) / ts
+        if k in ("load_image", "usaf_illumination"):
+            f *= fr(m["multiplier"]) if "multiplier" in m else Fraction(1)
+            if m.get("convert"):
+                # documented ADU -> photon factor: 2^adc_bit_resolution / 2^bit_resolution / system_gain
+                f *= Fraction(2) ** int(aux["adc_bits"]) / Fraction(2) ** int(m["bit_resolution"]) / fr(aux["system_gain"])
+        return [v * f for v in img]
+    if k in ("dark_current", "dark_current_rule07"):
+        return [fr(v) for v in aux["rate"]]
+    raise ValueError(k)
 
 
 def model_ops(det, m, aux):
     """Per pixel: the Coq op of this configured model (its rate at that pixel as an exact rational)."""
     n = det["rows"] * det["cols"]
     k = m["m"]
-    ts = fr(m["time_scale"]) if "time_scale" in m else Fraction(1)
-    if k in ("illumination", "stripe_pattern"):
-        pat = [fr(v) for v in aux["pattern"]] if "pattern" in aux else [Fraction(1)] * n
-        if any(p not in (0, 1) for p in pat) or len(pat) != n:
-            raise ValueError(f"spatial pattern of {k} is not a 0/1 mask of the detector shape")
-        return [f"PhotonRate {Q(fr(m['level']) / ts * p)}" for p in pat]
-    if k == "load_image":
-        mult = fr(m["multiplier"]) if "multiplier" in m else Fraction(1)
-        return [f"PhotonRate {Q(fr(v) * mult / ts)}" for v in m["data"]]
-    if k == "load_charge":
-        return [f"ChargeRate {Q(fr(v) / ts)}" for v in m["data"]]
-    if k == "dark_current":
-        return [f"ChargeRate {Q(fr(v))}" for v in aux["rate"]]
+    if k in ("illumination", "stripe_pattern", "load_image", "usaf_illumination"):
+        return [f"PhotonRate {Q(x)}" for x in model_rates(det, m, aux)]
+    if k in ("load_charge", "dark_current", "dark_current_rule07"):
+        return [f"ChargeRate {Q(x)}" for x in model_rates(det, m, aux)]
     if k == "simple_conversion":
         q = fr(m["qe"]) if m.get("qe") is not None else fr(det.get("qe", H(1.0)))
         return [f"Convert {Q(q)}"] * n
@@ -213,8 +350,17 @@ def model_ops(det, m, aux):
 
 
 def exact_possible(models, auxs) -> bool:
+    """Float arithmetic of the implementation is exact on this configuration (else: tolerance stream)."""
     for m, a in zip(models, auxs):
-        if m["m"] == "dark_current" and not all(is_small_dyadic(fr(v)) for v in a.get("rate", [])):
+        a = a or {}
+        if m["m"] in ("dark_current", "dark_current_rule07") and \
+                not all(is_small_dyadic(fr(v)) for v in a.get("rate", [])):
+            return False
+        if m["m"] == "scene_collection":
+            return False
+        if m["m"] in ("load_image", "usaf_illumination") and m.get("convert") and not pow2(fr(a["system_gain"])):
+            return False
+        if "pattern_level" in a and not all(is_small_dyadic(fr(v)) for v in a["pattern_level"]):
             return False
     return True
 
@@ -275,7 +421,8 @@ def build_scale(item, ra, rb):
 
 
 def bucket_of(m):
-    return "photon" if m["m"] in ("illumination", "load_image", "stripe_pattern") else "charge"
+    return "photon" if m["m"] in ("illumination", "load_image", "stripe_pattern", "usaf_illumination",
+                                  "scene_collection") else "charge"
 
 
 def build_inc(item, res):
@@ -317,6 +464,157 @@ def build_lin(item, res):
     return out
 
 
+# ------------------------------------------------------------------------------------------ translated rows
+
+TABLE = {"st": None}     # the structure returned by translator/c17.py for the tree under test (set by run / replay)
+
+FAMILY = {"illumination": ["ill_uniform", "ill_rect", "ill_ellip"], "load_image": ["load_image"],
+          "stripe_pattern": ["stripe"], "load_charge": ["load_charge"], "dark_current": ["dark_current"],
+          "dark_current_rule07": ["dark_current_rule07"], "usaf_illumination": ["usaf"]}
+
+
+class Skip(Exception):
+    """The translated row of this configuration cannot be evaluated (unknown variable, no row, ...): the case is
+    not judged (counted in the coverage), it is never an alarm."""
+
+
+def cond_true(cond: str, kw: dict) -> bool:
+    try:
+        return bool(eval(compile(cond, "<option>", "eval"), {"__builtins__": {}, "len": len, "isinstance": isinstance,  # noqa: S307
+                                                             "min": min, "max": max, "abs": abs, "bool": bool,
+                                                             "int": int, "float": float}, dict(kw)))
+    except Exception as ex:  # noqa: BLE001
+        raise Skip(f"option condition {cond!r} cannot be evaluated: {type(ex).__name__}") from ex
+
+
+def decode_kw(j):
+    return {k: (float.fromhex(v["hex"]) if isinstance(v, dict) and "hex" in v else v) for k, v in (j or {}).items()}
+
+
+def approx_kw(m):
+    """Harness-side view of the keyword arguments the driver passes for a generated model (used only to aim the
+    failing-input search at the option branches of a table row)."""
+    k = m["m"]
+    kw = {}
+    if "time_scale" in m:
+        kw["time_scale"] = float.fromhex(m["time_scale"])
+    if k in ("load_image", "usaf_illumination"):
+        kw.update(convert_to_photons=bool(m.get("convert")), bit_resolution=m.get("bit_resolution"),
+                  include_header=False, align=m.get("align"))
+        if "multiplier" in m:
+            kw["multiplier"] = float.fromhex(m["multiplier"])
+    elif k in ("dark_current", "dark_current_rule07"):
+        kw.update(temporal_noise=False, spatial_noise_factor=None)
+        if m.get("band_gap") is not None:
+            kw.update(band_gap=float.fromhex(m["band_gap"]), band_gap_room_temperature=float.fromhex(m["band_gap_rt"]))
+        if m.get("cutoff") is not None:
+            kw["cutoff_wavelength"] = float.fromhex(m["cutoff"])
+    return kw
+
+
+def table_entry(kind):
+    st = TABLE["st"]
+    if st is None:
+        raise Skip("no table")
+    key = next((k for k, v in st["models"].items() if v["kind"] == kind and v["expr"]), None)
+    if key is None:
+        raise Skip(f"no expression-shaped table entry for {kind}")
+    return key, st["models"][key]
+
+
+def row_of(kind, kw):
+    """(index, row) of the rate_table row whose option conditions hold for these keyword arguments."""
+    from translator import c17 as tr
+
+    key, info = table_entry(kind)
+    full = dict(info["defaults"])
+    full.update(kw)
+    rows = [(i, r) for i, r in enumerate(TABLE["st"]["rows"])
+            if r["model"] == key and all(cond_true(c, full) for c in r["conds"])]
+    if len(rows) != 1:
+        raise Skip(f"{len(rows)} table rows match the options of {kind}")
+    del tr
+    return rows[0][0], rows[0][1], full
+
+
+def provide(nm, det, m, aux, kw, n):
+    """('s', Fraction) | ('p', [Fraction]*n) | None: the value of a table variable for this configured model."""
+    if nm in kw:
+        v = kw[nm]
+        if isinstance(v, bool) or not isinstance(v, (int, float)):
+            return None
+        return "s", Fraction(v)
+    if nm.startswith("detector."):
+        v = (aux.get("detvars") or {}).get(nm)
+        return None if v is None else ("s", fr(v))
+    if nm.startswith("call:"):
+        base = nm[5:].split("#")[0]
+        if base == "load_cropped_and_aligned_image" and m["m"] in ("load_image", "load_charge", "usaf_illumination"):
+            img = [fr(v) for v in (aux["image"] if "image" in aux else m["data"])]
+            return ("p", img) if len(img) == n else None
+        if base in ("calculate_illumination", "compute_pattern") and m["m"] in ("illumination", "stripe_pattern"):
+            if "pattern_level" in aux:
+                pat = [fr(v) for v in aux["pattern_level"]]
+            else:
+                mask = [fr(v) for v in aux["pattern"]] if "pattern" in aux else [Fraction(1)] * n
+                pat = [fr(m["level"]) * x for x in mask]
+            return ("p", pat) if len(pat) == n else None
+        if base in ("simulate_dark_signal", "average_dark_current_rule07") and "rate" in aux:
+            rate = [fr(v) for v in aux["rate"]]
+            return ("p", rate) if len(rate) == n else None
+    return None
+
+
+def expr_vars(e):
+    from translator import c17 as tr
+
+    return sorted({a[1] for a in tr.atoms(e) if a[0] == "var"}), [a for a in tr.atoms(e) if a[0] == "bad"]
+
+
+def build_rate(item, res):
+    """The translated expression of the configured model's option branch, evaluated inside Coq on the actual
+    arguments, against the increments the implementation produced."""
+    p = item["payloads"][0]
+    det, m = p["det"], p["model"]
+    n = det["rows"] * det["cols"]
+    aux = res.get("aux", {})
+    idx, row, kw = row_of(m["m"], decode_kw(aux.get("kw")))
+    names, bads = expr_vars(row["expr"])
+    if row.get("random") or bads:
+        raise Skip("the row is not a deterministic arithmetic expression")
+    scal, pix = [], [[] for _ in range(n)]
+    for nm in names:
+        v = provide(nm, det, m, aux, kw, n)
+        if v is None:
+            raise Skip(f"no value for table variable {nm}")
+        if v[0] == "s":
+            scal.append(f"({core.cstr(nm)}, {Q(v[1])})")
+        else:
+            for i in range(n):
+                pix[i].append(f"({core.cstr(nm)}, {Q(v[1][i])})")
+    obs = []
+    for rec in res["steps"]:
+        e = rec.get("empty")
+        if not e or "raise" in e or e.get(bucket_of(m)) is None:
+            raise ValueError(f"model call failed: {e}")
+        obs.append([fr(v) for v in e[bucket_of(m)]])
+    exact = exact_possible([m], [aux])
+    return (f"{{| rc_tol := {Q(tol_of(item, exact))}; rc_row := {idx}%nat; rc_env := {core.clist(scal)}; "
+            f"rc_pix := {core.clist(core.clist(x) for x in pix)}; rc_steps := {QL(fr(s) for s in p['steps'])}; "
+            f"rc_obs := {core.clist(QL(o) for o in obs)} |}}")
+
+
+RATE_HEADER = ("From Coq Require Import QArith List String.\nFrom PyxelV Require Import Model.Flux Model.FluxExpr.\n"
+               "From PyxelGen Require Import Gen_C17.\nImport ListNotations.\nOpen Scope string_scope.\n"
+               "Open Scope Q_scope.\n")
+
+
+def emit_rate_file(lits) -> str:
+    body = ";\n  ".join(lits)
+    return (RATE_HEADER + f"Definition cases : list rate_case := [\n  {body}\n].\n"
+            "Eval vm_compute in rate_mismatches rate_table cases.\nEval vm_compute in rate_illposed rate_table cases.\n")
+
+
 HEADER = ("From Coq Require Import QArith List.\nFrom PyxelV Require Import Model.Flux.\n"
           "Import ListNotations.\nOpen Scope Q_scope.\n")
 
@@ -330,12 +628,13 @@ def emit_file(lits) -> str:
 # ------------------------------------------------------------------------------------------ building the run
 
 
-def call_items(ctx, r, n_per_model, dy):
+def call_items(ctx, r, n_extra, dy):
+    """Direct calls of every rate model: EVERY variant of VARIANTS once, plus n_extra random ones per model."""
     items = []
     for kind in RATE_MODELS:
-        for _ in range(n_per_model):
-            det = gen_det(r, need_even=(kind == "stripe"), small=True)
-            m = gen_model(r, kind, det, dy)
+        for variant in list(VARIANTS[kind]) + [None] * n_extra:
+            det = gen_det(r, need_even=(kind == "stripe"), small=True, dy=dy)
+            m = gen_model(r, kind, det, dy, variant)
             n = det["rows"] * det["cols"]
             steps = []
             while len(set(steps)) < 3:
@@ -347,9 +646,19 @@ def call_items(ctx, r, n_per_model, dy):
                       time=H(r.choice([7.0, 3.0, 11.5])), prefill=pre)
             items.append(dict(type="inc", dy=dy, payloads=[pl], name=kind))
             items.append(dict(type="lin", dy=dy, payloads=[pl], name=kind))
+            items.append(dict(type="rate", dy=dy, payloads=[pl], name=kind))
+    for kind in INC_ONLY:
+        for variant in VARIANTS[kind]:
+            det = dict(gen_det(r, dy=dy), rows=24, cols=24)
+            m = gen_model(r, kind, det, dy, variant)
+            steps = []
+            while len(set(steps)) < 3:
+                steps = [gen_increment(r, dy) for _ in range(3)]
+            pl = dict(kind="call", det=det, model=m, steps=[H(x) for x in steps], time=H(7.0), prefill=None)
+            items.append(dict(type="inc", dy=dy, payloads=[pl], name=kind))
     for kind in ["simple_conversion", "qe_map", "simple_collection"]:
-        for _ in range(n_per_model):
-            det = gen_det(r, small=True)
+        for _ in range(max(2, n_extra)):
+            det = gen_det(r, small=True, dy=dy)
             n = det["rows"] * det["cols"]
             m = dict(m="simple_collection") if kind == "simple_collection" else gen_model(r, kind, det, dy)
             pre = dict(photon=gen_data(r, n, dy, 16), charge=gen_data(r, n, dy, 8), pixel=gen_data(r, n, dy, 8))
@@ -372,11 +681,14 @@ def exposure_items(ctx, r, n_pair, n_scale, n_single, dy, kinds_list=()):
         end = start + (r.randrange(4, 97) / 8.0 if dy else round(r.uniform(0.5, 12.0), 3))
         if end == 0.0:
             end += 1.0
-        ta = gen_partition(r, dy, start, end, r.randrange(1, 13))
-        tb = gen_partition(r, dy, start, end, r.choice([1, 1, 2, 3, 5, 8, 12]))
-        pa, pb = exposure_payload(det, models, start, ta, True), exposure_payload(det, models, start, tb, True)
-        items += [dict(type="exp", dy=dy, payloads=[pa]), dict(type="exp", dy=dy, payloads=[pb]),
-                  dict(type="pair", dy=dy, payloads=[pa, pb])]
+        # several splittings of the same total: a random one, a second one, a fine one and the single readout
+        ta = gen_partition(r, dy, start, end, r.randrange(2, 13))
+        others = [gen_partition(r, dy, start, end, r.choice([2, 3, 5, 8])), gen_partition(r, dy, start, end, 12), [end]]
+        pa = exposure_payload(det, models, start, ta, True, gen_entry(r))
+        items.append(dict(type="exp", dy=dy, payloads=[pa]))
+        for tb in others:
+            pb = exposure_payload(det, models, start, tb, True, gen_entry(r))
+            items += [dict(type="exp", dy=dy, payloads=[pb]), dict(type="pair", dy=dy, payloads=[pa, pb])]
     for _ in range(n_scale):
         det, models = pipe()
         sa, ta = gen_times(r, dy)
@@ -391,14 +703,15 @@ def exposure_items(ctx, r, n_pair, n_scale, n_single, dy, kinds_list=()):
                 tb.append(t)
             if tb[0] != 0.0:
                 break
-        pa, pb = exposure_payload(det, models, sa, ta, False), exposure_payload(det, models, sb, tb, False)
+        pa = exposure_payload(det, models, sa, ta, False, gen_entry(r))
+        pb = exposure_payload(det, models, sb, tb, False, gen_entry(r))
         items += [dict(type="exp", dy=dy, payloads=[pa]), dict(type="exp", dy=dy, payloads=[pb])]
         if dy:  # with non-dyadic times the scaled steps are not exactly c times the steps: no exact premise
             items.append(dict(type="scale", dy=dy, c=H(c), payloads=[pa, pb]))
     for _ in range(n_single):
         det, models = pipe()
         s, ts = gen_times(r, dy)
-        items.append(dict(type="exp", dy=dy, payloads=[exposure_payload(det, models, s, ts, r.random() < 0.5)]))
+        items.append(dict(type="exp", dy=dy, payloads=[exposure_payload(det, models, s, ts, r.random() < 0.5, gen_entry(r))]))
     return items
 
 
@@ -416,7 +729,7 @@ def corpus_items():
     out = []
     for f in sorted((core.VERIF / "harness" / "corpus" / "C17").glob("*.json")):
         c = json.loads(f.read_text())
-        if c.get("type") in ("exp", "pair", "scale", "inc", "lin") and c.get("payloads"):
+        if c.get("type") in ("exp", "pair", "scale", "inc", "lin", "rate") and c.get("payloads"):
             out.append({k: c[k] for k in ("type", "dy", "payloads", "c", "refused", "name") if k in c})
     return out
 
@@ -438,7 +751,9 @@ def evaluate(ctx: Ctx, items, tag="c", per=30):
             if key not in index:
                 index[key] = len(payloads)
                 payloads.append(p)
+    t0 = time.time()
     results = core.run_driver(ctx, "c17", payloads, workers=8)
+    ctx.cov.setdefault("phase_secs", {})[f"driver_{tag}"] = round(time.time() - t0, 1)
     recs = []
     for it in items:
         rs = [results[index[json.dumps(p, sort_keys=True)]] for p in it["payloads"]]
@@ -455,8 +770,13 @@ def evaluate(ctx: Ctx, items, tag="c", per=30):
                 lits = [build_scale(it, *rs)]
             elif it["type"] == "inc":
                 lits = [build_inc(it, rs[0])]
+            elif it["type"] == "rate":
+                lits = [build_rate(it, rs[0])]
             else:
                 lits = build_lin(it, rs[0])
+        except Skip as ex:
+            ctx.dist("rate_case", "not judged: " + str(ex)[:90])
+            continue
         except (ValueError, KeyError, TypeError) as ex:
             ctx.broken.append(Broken("correspondence", f"unusable driver result for a {it['type']} case",
                                      f"{type(ex).__name__}: {ex}", it))
@@ -465,27 +785,32 @@ def evaluate(ctx: Ctx, items, tag="c", per=30):
             recs.append(dict(item=it, lit=lit, results=rs, sub=j, mismatch=False, violation=False))
     files, chunks = {}, {}
     # keep files small: a case with many pixels and readouts is a long literal
-    cur, size, k = [], 0, 0
-    for rec in recs:
-        cur.append(rec)
-        size += len(rec["lit"])
-        if len(cur) >= per or size > 600_000:
-            name = f"{tag}_{k:03d}"
-            files[name], chunks[name] = emit_file([x["lit"] for x in cur]), cur
-            cur, size, k = [], 0, k + 1
-    if cur:
-        name = f"{tag}_{k:03d}"
-        files[name], chunks[name] = emit_file([x["lit"] for x in cur]), cur
+    for grp, emit in (("flux", emit_file), ("rate", emit_rate_file)):
+        cur, size, k = [], 0, 0
+        for rec in [x for x in recs if (x["item"]["type"] == "rate") == (grp == "rate")]:
+            cur.append(rec)
+            size += len(rec["lit"])
+            if len(cur) >= per or size > 600_000:
+                name = f"{tag}_{grp[0]}{k:03d}"
+                files[name], chunks[name] = emit([x["lit"] for x in cur]), cur
+                cur, size, k = [], 0, k + 1
+        if cur:
+            name = f"{tag}_{grp[0]}{k:03d}"
+            files[name], chunks[name] = emit([x["lit"] for x in cur]), cur
+    t0 = time.time()
     res = core.coq_eval_many(ctx, files, timeout=900, par=8)
+    ctx.cov["phase_secs"][f"coq_{tag}"] = round(time.time() - t0, 1)
+    ctx.cov["phase_secs"][f"coq_files_{tag}"] = len(files)
     for name in sorted(files):
         ok, evals, se = res[name]
         if not ok or len(evals) != 2:
             ctx.broken.append(Broken("correspondence", f"case file {name}.v did not evaluate", core.tail(se, 15)))
             continue
+        is_rate = chunks[name][0]["item"]["type"] == "rate"
         for i in core.parse_int_list(evals[0]):
             chunks[name][i]["mismatch"] = True
         for i in core.parse_int_list(evals[1]):
-            chunks[name][i]["violation"] = True
+            chunks[name][i]["mismatch" if is_rate else "violation"] = True   # an ill-posed rate case is a harness fault
     return recs
 
 
@@ -531,11 +856,11 @@ def clause_of(rec):
 def describe(rec):
     it = rec["item"]
     p = it["payloads"][0]
-    if it["type"] in ("inc", "lin"):
+    if it["type"] in ("inc", "lin", "rate"):
         return (f"{p['model']['m']} called with time steps {[float.fromhex(s) for s in p['steps']]} on a "
                 f"{p['det']['rows']}x{p['det']['cols']} detector")
     ts = [float.fromhex(t) for t in p["times"]]
-    s = (f"{'non-destructive' if p['nd'] else 'destructive'} exposure start={float.fromhex(p['start'])} times={ts} "
+    s = (f"{'non-destructive' if p['nd'] else 'destructive'} exposure{' (pyxel.exposure_mode)' if p.get('entry') else ''} start={float.fromhex(p['start'])} times={ts} "
          f"models={model_names(it)} on {p['det']['rows']}x{p['det']['cols']}")
     if len(it["payloads"]) > 1:
         q = it["payloads"][1]
@@ -574,7 +899,7 @@ def to_violation(rec) -> Violation:
                      what=f"{clause}: {describe(rec)}", sig=sig)
 
 
-PH_NAMES = ("illumination", "load_image", "stripe_pattern")
+PH_NAMES = ("illumination", "load_image", "stripe_pattern", "usaf_illumination")
 CV_NAMES = ("simple_conversion", "qe_map")
 
 
@@ -588,8 +913,11 @@ def tiny_payload(p):
     ms = []
     for m in p["models"]:
         m = dict(m)
-        if "data" in m:
+        if "data" in m and m["m"] != "usaf_illumination":
             m["data"] = m["data"][:side * side]
+            m.pop("data_shape", None)
+            m.pop("position", None)
+            m.pop("align", None)
         if m.get("option") in ("rectangular", "elliptic"):
             m["object_size"] = [2 * side + 1, 2 * side + 1]
             m.pop("object_center", None)
@@ -652,6 +980,11 @@ def collect(ctx: Ctx, recs, shrink=True):
         it = rec["item"]
         if rec["violation"]:
             by_clause.setdefault(clause_of(rec), []).append(rec)
+        elif rec["mismatch"] and it["type"] == "rate":
+            ctx.broken.append(Broken("correspondence", "translated increment expression (Gen_C17.rate_table) vs implementation",
+                                     "the expression read from the source, evaluated in Coq on the actual arguments, differs "
+                                     "from what the model added (or the case is ill-posed): " + describe(rec),
+                                     dict(type=it["type"], payloads=it["payloads"])))
         elif rec["mismatch"]:
             ctx.broken.append(Broken("correspondence", f"Model/Flux.v vs implementation ({it['type']} case)",
                                      "model and implementation differ, or the generated case is ill-posed: " + describe(rec),
@@ -691,6 +1024,7 @@ def coverage(ctx: Ctx, recs):
             ctx.dist("readouts", len(p["times"]))
             ctx.dist("geometry", f"{p['det']['rows']}x{p['det']['cols']}")
             ctx.dist("mode", "non_destructive" if p["nd"] else "destructive")
+            ctx.dist("entry_point", p.get("entry", "run_mode"))
             ctx.dist("start", "zero" if float.fromhex(p["start"]) == 0 else
                      ("negative" if float.fromhex(p["start"]) < 0 else "positive"))
             for nm in model_names(it):
@@ -709,6 +1043,13 @@ def coverage(ctx: Ctx, recs):
                 "pixel" in x and any(float.fromhex(v) != 0.0 for v in x["pixel"][-1]) for x in rec["results"])
         else:
             ctx.dist("model_called", p["model"]["m"] + (":" + p["model"].get("option", "") if p["model"]["m"] == "illumination" else ""))
+            if t == "inc":
+                mm = p["model"]
+                opts = [k for k in ("time_scale", "multiplier", "convert", "position", "align", "data_shape", "angle",
+                                    "band_gap", "cutoff", "object_center") if mm.get(k) not in (None, False)]
+                ctx.dist("options_called", mm["m"] + "(" + ",".join(opts) + ")")
+            if t == "rate":
+                ctx.dist("rate_case", "judged in Coq against the translated row")
             nontrivial = True
         if nontrivial:
             seen.add(json.dumps([t, it["payloads"], rec.get("sub", 0)], sort_keys=True))
@@ -718,26 +1059,30 @@ def coverage(ctx: Ctx, recs):
 def run(ctx: Ctx):
     ctx.trusted += TRUSTED
     ctx.assumptions += [
-        "pipelines contain only the listed models: illumination (uniform/rectangular/elliptic), load_image, "
-        "stripe_pattern (angle 0), simple_conversion / conversion_with_qe_map with binomial_sampling=False, load_charge, "
-        "dark_current with temporal_noise=False and no spatial noise, simple_collection (exactly one, last)",
+        "pipelines contain only the models classified as time-integrating by translator/c17.py with every option that "
+        "is not a noise switch: illumination (uniform/rectangular/elliptic, object size/centre, time_scale), load_image and "
+        "usaf_illumination (position, align, file shape, multiplier, time_scale, convert_to_photons + bit_resolution), "
+        "stripe_pattern (period, startwith, angle, time_scale), load_charge (position, align, time_scale), dark_current "
+        "(figure_of_merit, band gaps) and dark_current_rule07 (cut-off) with temporal_noise=False and no spatial noise, "
+        "simple_conversion / conversion_with_qe_map with binomial_sampling=False, simple_collection (exactly one, last); "
+        "the scene -> photon simple_collection is called directly only",
         "exact stream: dyadic times, levels, file values, time scales (powers of two), QE; equality is exact. "
         "Non-dyadic stream: relative tolerance 1e-9, reported separately in the distribution",
         "stripe_pattern only on even detector shapes (it returns a smaller array on odd shapes - outside this property)",
     ]
-    core.proof_leg(ctx, {}, PROP_FILE)
+    proof_ok = translator_leg(ctx)
 
     r = ctx.rng("cases")
     q = ctx.quick
     items = corpus_items()
     ctx.cov["corpus_cases"] = len(items)
-    items += call_items(ctx, r, 6 if q else 30, True)
-    items += call_items(ctx, ctx.rng("calls-nd"), 3 if q else 12, False)
+    items += call_items(ctx, r, 2 if q else 12, True)
+    items += call_items(ctx, ctx.rng("calls-nd"), 0 if q else 6, False)
     singles_and_full = [[k] for k in RATE_MODELS] + [list(RATE_MODELS)]
     subsets = singles_and_full if q else all_subsets()
     r.shuffle(subsets)
-    items += exposure_items(ctx, r, 50 if q else 400, 32 if q else 240, 24 if q else 200, True, subsets)
-    items += exposure_items(ctx, ctx.rng("exp-nd"), 12 if q else 80, 8 if q else 50, 8 if q else 50, False)
+    items += exposure_items(ctx, r, 24 if q else 240, 24 if q else 200, 16 if q else 160, True, subsets)
+    items += exposure_items(ctx, ctx.rng("exp-nd"), 8 if q else 50, 6 if q else 40, 6 if q else 40, False)
     items += refused_items(r)
     recs = evaluate(ctx, items)
     seen = coverage(ctx, recs)
@@ -746,7 +1091,12 @@ def run(ctx: Ctx):
                        "non-zero start time and a non-zero final pixel value; every direct model call uses >= 3 distinct "
                        "time steps and a pre-filled bucket")
     ctx.cov["disagreements_checked"] = sum(1 for x in recs if x["mismatch"])
-    ctx.cov["exhaustive"] = "all 127 non-empty subsets of the 7 rate models (thorough tier)" if not q else False
+    subsets_run = {frozenset(rate_kind(m) for m in x["item"]["payloads"][0]["models"] if rate_kind(m))
+                   for x in recs if x["item"]["type"] == "exp" and x["item"].get("dy", True) and not x["item"].get("refused")}
+    subsets_run.discard(frozenset())
+    ctx.cov["rate_model_subsets_run"] = len(subsets_run)
+    ctx.cov["exhaustive"] = (f"{len(subsets_run)} of the {2 ** len(RATE_MODELS) - 1} non-empty subsets of the "
+                             f"{len(RATE_MODELS)} rate models were run as exposures (measured)") if not q else False
     for rec in [x for x in recs if x["item"]["type"] == "pair"][:2] + [x for x in recs if x["item"]["type"] == "inc"][:1]:
         ctx.sample(dict(what=describe(rec), mismatch=rec["mismatch"], violation=rec["violation"]))
     collect(ctx, recs)
@@ -756,7 +1106,45 @@ def run(ctx: Ctx):
         if not ok:
             ctx.broken.append(Broken("theorem", "coqchk of Properties/C17.v", core.tail(out, 20)))
     if ctx.broken and not new_violations(ctx):
-        search(ctx)
+        search(ctx, focus=[] if proof_ok else rejected_rows(ctx))
+
+
+def translator_leg(ctx: Ctx) -> bool:
+    """Regenerate Gen_C17.v from the tree under test (fail closed -> FALLBACK) and check the theorems over it."""
+    from translator import c17 as tr
+
+    try:
+        st = tr.translate_struct(ctx.repo)
+    except core.TranslationError as ex:
+        ctx.broken.append(Broken("translation", "translator/c17.py (time readers / increment expressions)", str(ex)))
+        ctx.log("translation failed (fail closed), continuing with the table of the unchanged tree:", str(ex)[:300])
+        st = tr.fallback_struct()
+    TABLE["st"] = st
+    ctx.cov["translator"] = dict(time_readers=len(st["readers"]), integrating_models=len(st["integrating"]),
+                                 expression_shaped=len(st["expr_models"]), excluded_models=len(st["excluded"]),
+                                 rate_table_rows=len(st["rows"]),
+                                 deterministic_rows=sum(1 for x in st["rows"] if not x.get("random")))
+    return core.proof_leg(ctx, {"Gen_C17.v": tr.render(st)}, PROP_FILE)
+
+
+def rejected_rows(ctx: Ctx):
+    """The rows of the regenerated table that are neither linear in the time step nor random (evaluated in Coq):
+    [(model kind, option conditions)] for the failing-input search."""
+    text = ("From Coq Require Import List.\nFrom PyxelV Require Import Model.FluxExpr.\n"
+            "From PyxelGen Require Import Gen_C17.\nEval vm_compute in bad_rows rate_table.\n")
+    ok, evals, se = core.coq_eval(ctx, "bad_rows", text)
+    st = TABLE["st"]
+    if not ok or not evals or st is None:
+        return []
+    out = []
+    for i in core.parse_int_list(evals[0]):
+        if i < len(st["rows"]):
+            row = st["rows"][i]
+            kind = st["models"].get(row["model"], {}).get("kind")
+            ctx.log(f"table row rejected (not linear in the time step): {row['model']} [{' & '.join(row['conds']) or 'always'}]")
+            out.append((kind, list(row["conds"])))
+    ctx.cov["rejected_rows"] = [f"{k}: {' & '.join(c)}" for k, c in out]
+    return out
 
 
 def new_violations(ctx: Ctx):
@@ -764,14 +1152,57 @@ def new_violations(ctx: Ctx):
     return [v for v in ctx.violations if not any(core.finding_matches(e, v) for e in fs)]
 
 
-def search(ctx: Ctx):
+def focus_items(ctx: Ctx, r, focus, n_calls=24, n_exp=16):
+    """Direct calls and exposures of the models / option branches whose table row the theorem rejected."""
+    items = []
+    for kind, conds in focus:
+        for hk in FAMILY.get(kind, []):
+            made_c = made_e = tries = 0
+            while (made_c < n_calls or made_e < n_exp) and tries < 400:
+                tries += 1
+                det = gen_det(r, need_even=(hk == "stripe"), small=True)
+                m = gen_model(r, hk, det, True)
+                try:
+                    _, info = table_entry(kind)
+                    full = dict(info["defaults"])
+                    full.update(approx_kw(m))
+                    if not all(cond_true(c, full) for c in conds):
+                        continue
+                except Skip:
+                    pass
+                n = det["rows"] * det["cols"]
+                if made_c < n_calls:
+                    steps = []
+                    while len(set(steps)) < 3:
+                        steps = [gen_increment(r, True) for _ in range(3)]
+                    pre = dict(photon=gen_data(r, n, True, 8), charge=gen_data(r, n, True, 8), pixel=gen_data(r, n, True, 8))
+                    pl = dict(kind="call", det=det, model=m, steps=[H(x) for x in steps], time=H(7.0), prefill=pre)
+                    items += [dict(type="inc", dy=True, payloads=[pl], name=hk), dict(type="lin", dy=True, payloads=[pl], name=hk)]
+                    made_c += 1
+                elif made_e < n_exp:
+                    models = [m] + ([gen_model(r, "simple_conversion", det, True)] if hk in PHOTON_KINDS else []) \
+                        + [dict(m="simple_collection")]
+                    start = gen_start(r, True)
+                    end = start + r.randrange(4, 49) / 8.0
+                    end = end + 1.0 if end == 0.0 else end
+                    ta, tb = gen_partition(r, True, start, end, r.randrange(2, 7)), [end]
+                    pa, pb = exposure_payload(det, models, start, ta, True), exposure_payload(det, models, start, tb, True)
+                    items += [dict(type="exp", dy=True, payloads=[pa]), dict(type="pair", dy=True, payloads=[pa, pb])]
+                    made_e += 1
+    return items
+
+
+def search(ctx: Ctx, focus=()):
     """An obligation or the correspondence broke without a concrete failing input: look harder."""
-    ctx.log("searching for a concrete failing input (bigger budget, every subset of the rate models)")
+    ctx.log("searching for a concrete failing input (bigger budget, every subset of the rate models"
+            + (", aimed at the rejected table rows" if focus else "") + ")")
     r = ctx.rng("search")
     subsets = all_subsets()
     r.shuffle(subsets)
-    items = call_items(ctx, r, 8, True)
-    items += exposure_items(ctx, r, 90, 40, 30, True, subsets)
+    items = focus_items(ctx, r, focus) if focus else []
+    items += call_items(ctx, r, 6, True)
+    items = [it for it in items if it["type"] != "rate"]
+    items += exposure_items(ctx, r, 60, 40, 30, True, subsets[:120])
     recs = evaluate(ctx, items, tag="s")
     ctx.cov["search_cases"] = len(recs)
     nb = len(ctx.broken)
@@ -786,6 +1217,8 @@ def replay(ctx: Ctx, rp: dict) -> int:
         print(rp.get("detail", ""))
         return 1
     core.ensure_lib(ctx, targets=core.lib_targets_of([(core.THEORIES / PROP_FILE).read_text()]))
+    if case.get("type") == "rate":
+        translator_leg(ctx)
     it = copy.deepcopy(case)
     recs = evaluate(ctx, [it], tag="replay")
     sub = case.get("sub", 0)
@@ -808,17 +1241,28 @@ META = dict(
         "models, expectation-value conversions, charge-rate models, one simple collection), every accepted schedule and "
         "start time, the pixel charge at readout i of a non-destructive exposure is (total rate)*(t_i - start) - hence "
         "the final charge is the same for any two partitions with the same end points - and each destructive frame is "
-        "(total rate)*(t_i - t_(i-1)), so scaling every interval by c scales every frame by c. That the real code is "
-        "this model is established by correspondence (= testing): each listed real model is called with several time "
-        "steps and its increment is judged inside Coq to be rate*step with a step-independent rate (and the documented "
-        "closed-form rate level/time_scale etc.); real pyxel.run_mode exposures under pairs of random partitions of "
-        "the same interval, and under scaled destructive schedules, are judged inside Coq against the model trace, the "
-        "closed forms, and each other."),
+        "(total rate)*(t_i - t_(i-1)), so scaling every interval by c scales every frame by c. Tie to the source, "
+        "regenerated on every run (translator/c17.py, fail closed): (a) every function under pyxel/models that reads the "
+        "exposure clock or takes a time_scale must be classified as time-integrating or excluded with a reason, and "
+        "every parameter of an integrating model must be classified; (b) for the expression-shaped integrating models "
+        "(illumination, load_image, usaf_illumination, stripe_pattern, load_charge, dark_current, dark_current_rule07) the "
+        "quantity added to the bucket is read symbolically for every option branch, and Coq proves over the regenerated "
+        "table that every deterministic branch is (value at unit step)*time_step for all argument values, is additive "
+        "over any split of the step, and is a PhotonRate/ChargeRate op of the exposure model; (c) the Readout.__init__ "
+        "refusals read from the source accept exactly valid_schedule. That the helpers treated as step-independent are "
+        "so, that the translated rows describe what the code does, and the exposure loop itself, are established by "
+        "correspondence (= testing): each real model with every option variant is called with several time steps and "
+        "judged inside Coq (K-free proportionality, closed-form rate, the translated row evaluated on the actual "
+        "arguments); real pyxel.run_mode exposures under several partitions of the same interval, and under scaled "
+        "destructive schedules, are judged inside Coq against the model trace, the closed forms, and each other."),
     level_note=(
-        "Trusted: Coq kernel + vm_compute; the harness and driver; numpy float64 arithmetic being exact on the dyadic "
-        "inputs (a separate non-dyadic stream uses a 1e-9 relative tolerance); the spatial 0/1 masks and the dark-current "
-        "rate per unit time are taken from the implementation (the property is about the time dependence). Only the "
-        "listed noise-free models are covered; stripe_pattern only on even shapes and angle 0."),
-    technique="Coq proof (induction over the schedule, telescoping) + in-Coq correspondence/spec evaluation of real runs",
+        "Trusted: Coq kernel + vm_compute; the harness, driver and translator (its symbolic evaluator and classification "
+        "table); numpy float64 arithmetic being exact on the dyadic inputs (a separate non-dyadic stream uses a 1e-9 "
+        "relative tolerance); spatial masks, file placement, system_gain and the dark-current rates per unit time are "
+        "taken from the implementation (the property is about the time dependence). Noise options and always-random "
+        "models are outside the property; the scene projection (photon_collection.simple_collection) is covered by "
+        "direct calls only."),
+    technique="Coq proof (induction over the schedule, telescoping; homogeneity of the translated increment expressions) "
+              "+ fail-closed translator + in-Coq correspondence/spec evaluation of real runs",
     design_ref="DESIGN.md section 6, C17",
 )
